@@ -1,1 +1,539 @@
+/-
+C16 — proofs: the ARMA-family models satisfy (and are the unique solutions of) their documented
+recurrences; the random walk takes unit steps along one axis; the randint decode is a bijection.
+Core Lean only.
+-/
 import FFVerif.Props.C16
+namespace FF
+open Arma C16
+
+/-! ### `at'` and `build` -/
+
+theorem at'_eq_getElem (l : List Int) (i : Nat) (h : i < l.length) : at' l i = l[i] := by
+  simp [at', List.getD_eq_getElem?_getD, h]
+
+theorem at'_append_left (l r : List Int) (i : Nat) (h : i < l.length) : at' (l ++ r) i = at' l i := by
+  simp [at', List.getD_eq_getElem?_getD, List.getElem?_append_left h]
+
+theorem at'_append_self (l : List Int) (x : Int) : at' (l ++ [x]) l.length = x := by
+  simp [at', List.getD_eq_getElem?_getD]
+
+theorem at'_take (l : List Int) (i k : Nat) (h : k < i) : at' (l.take i) k = at' l k := by
+  simp [at', List.getD_eq_getElem?_getD, h]
+
+theorem ext_at' (l₁ l₂ : List Int) (hl : l₁.length = l₂.length)
+    (h : ∀ i, i < l₁.length → at' l₁ i = at' l₂ i) : l₁ = l₂ := by
+  apply List.ext_getElem hl
+  intro i h1 h2
+  have := h i h1
+  rwa [at'_eq_getElem _ _ h1, at'_eq_getElem _ _ h2] at this
+
+theorem build_succ (N : Nat) (value : Nat → List Int → Int) :
+    build (N + 1) value = build N value ++ [value N (build N value)] := by
+  simp [build, List.range_succ, List.foldl_append]
+
+theorem build_length (N : Nat) (value : Nat → List Int → Int) : (build N value).length = N := by
+  induction N with
+  | zero => simp [build]
+  | succ n ih => rw [build_succ]; simp [ih]
+
+theorem build_take (N : Nat) (value : Nat → List Int → Int) (i : Nat) (h : i ≤ N) :
+    (build N value).take i = build i value := by
+  induction N with
+  | zero =>
+    have : i = 0 := by omega
+    subst this; simp [build]
+  | succ n ih =>
+    by_cases hi : i = n + 1
+    · subst hi
+      exact List.take_of_length_le (by rw [build_length]; omega)
+    · rw [build_succ, List.take_append_of_le_length (by rw [build_length]; omega)]
+      exact ih (by omega)
+
+/-- the `i`-th entry was computed from the first `i` entries -/
+theorem build_at' (N : Nat) (value : Nat → List Int → Int) (i : Nat) (h : i < N) :
+    at' (build N value) i = value i ((build N value).take i) := by
+  rw [build_take N value i (by omega)]
+  have h1 : (build N value).take (i + 1) = build (i + 1) value := build_take N value (i + 1) (by omega)
+  have h2 : at' (build N value) i = at' ((build N value).take (i + 1)) i := (at'_take _ _ _ (by omega)).symm
+  rw [h2, h1, build_succ]
+  have := at'_append_self (build i value) (value i (build i value))
+  rwa [build_length] at this
+
+theorem C16_build_length (N : Nat) (value : Nat → List Int → Int) : (build N value).length = N :=
+  build_length N value
+
+theorem C16_build_at' (N : Nat) (value : Nat → List Int → Int) (i : Nat) (h : i < N) :
+    at' (build N value) i = value i ((build N value).take i) :=
+  build_at' N value i h
+
+/-! ### causal recurrences: existence and uniqueness -/
+
+/-- `F t l` only reads `l` at indices `< t` -/
+def Causal (F : Nat → List Int → Int) : Prop :=
+  ∀ t (l₁ l₂ : List Int), (∀ k, k < t → at' l₁ k = at' l₂ k) → F t l₁ = F t l₂
+
+theorem okIff (N : Nat) (G : Nat → List Int → Int) (out : List Int) :
+    (out.length == N && allIdx N (fun t => at' out t == G t out)) = true ↔
+      out.length = N ∧ ∀ t, t < N → at' out t = G t out := by
+  simp [allIdx, List.all_eq_true]
+
+/-- a builder whose step agrees with a causal recurrence produces a solution of the recurrence -/
+theorem build_sat (N : Nat) (V G : Nat → List Int → Int) (hG : Causal G)
+    (hVG : ∀ t l, t < N → V t l = G t l) :
+    ∀ t, t < N → at' (build N V) t = G t (build N V) := by
+  intro t ht
+  rw [build_at' N V t ht, hVG _ _ ht]
+  exact hG t _ _ (fun k hk => at'_take _ _ _ hk)
+
+/-- a causal recurrence has at most one solution of each length -/
+theorem causal_unique (N : Nat) (G : Nat → List Int → Int) (hG : Causal G) (l₁ l₂ : List Int)
+    (h1 : l₁.length = N) (h2 : l₂.length = N)
+    (e1 : ∀ t, t < N → at' l₁ t = G t l₁) (e2 : ∀ t, t < N → at' l₂ t = G t l₂) : l₁ = l₂ := by
+  have key : ∀ n, ∀ t, t < n → t < N → at' l₁ t = at' l₂ t := by
+    intro n
+    induction n with
+    | zero => intro t h; omega
+    | succ n ih =>
+      intro t htn htN
+      rw [e1 t htN, e2 t htN]
+      apply hG
+      intro k hk
+      exact ih k (by omega) (by omega)
+  apply ext_at' _ _ (by omega)
+  intro i hi
+  exact key (i + 1) i (by omega) (by omega)
+
+/-! ### lag sums -/
+
+theorem foldl_term_congr (c f g : Nat → Int) (l : List Nat) (a : Int)
+    (h : ∀ j, j ∈ l → f j = g j) :
+    l.foldl (fun acc j => acc + c j * f j) a = l.foldl (fun acc j => acc + c j * g j) a := by
+  induction l generalizing a with
+  | nil => rfl
+  | cons x xs ih =>
+    simp only [List.foldl_cons]
+    rw [h x (by simp)]
+    exact ih _ (fun j hj => h j (by simp [hj]))
+
+theorem lags_congr (coef : List Int) (avail : Nat) (f g : Nat → Int)
+    (h : ∀ k, k < coef.length → k < avail → f k = g k) : lags coef avail f = lags coef avail g := by
+  unfold lags
+  apply foldl_term_congr
+  intro j hj
+  simp only [List.mem_filter, List.mem_range, decide_eq_true_eq] at hj
+  exact h j hj.1 hj.2
+
+theorem lagSum_eq_lags (coef : List Int) (guard : Nat → Bool) (avail : Nat) (f g : Nat → Int)
+    (hguard : ∀ j, j < coef.length → guard j = decide (j < avail))
+    (h : ∀ k, k < coef.length → k < avail → f k = g k) : lagSum coef guard f = lags coef avail g := by
+  rw [← lags_congr coef avail f g h]
+  unfold lagSum lags
+  congr 1
+  apply List.filter_congr
+  intro j hj
+  exact hguard j (by simpa using hj)
+
+/-! ### the specifications as recurrences -/
+
+def arSpec (obs phis eps : List Int) (t : Nat) (out : List Int) : Int :=
+  if t < obs.length then at' obs t else at' eps t + lags phis t (fun k => at' out (t - 1 - k))
+
+def maSpec (c : Int) (thetas eps : List Int) (t : Nat) (_out : List Int) : Int :=
+  c + at' eps t + lags thetas t (fun k => at' eps (t - 1 - k))
+
+def armaSpec (obs phis thetas eps : List Int) (t : Nat) (out : List Int) : Int :=
+  if t < obs.length then at' obs t
+  else at' eps t + lags phis t (fun k => at' out (t - 1 - k)) + lags thetas t (fun k => at' eps (t - 1 - k))
+
+def arimaSpec (c : Int) (phis thetas eps : List Int) (t : Nat) (out : List Int) : Int :=
+  c + at' eps t + lags phis (t - 1) (fun k => at' out (t - 1 - k) - at' out (t - 2 - k))
+    + lags thetas t (fun k => at' eps (t - 1 - k))
+
+theorem arOK_iff (N : Nat) (obs phis eps out : List Int) :
+    arOK N obs phis eps out = true ↔
+      out.length = N ∧ ∀ t, t < N → at' out t = arSpec obs phis eps t out :=
+  okIff N (arSpec obs phis eps) out
+
+theorem maOK_iff (N : Nat) (c : Int) (thetas eps out : List Int) :
+    maOK N c thetas eps out = true ↔
+      out.length = N ∧ ∀ t, t < N → at' out t = maSpec c thetas eps t out :=
+  okIff N (maSpec c thetas eps) out
+
+theorem armaOK_iff (N : Nat) (obs phis thetas eps out : List Int) :
+    armaOK N obs phis thetas eps out = true ↔
+      out.length = N ∧ ∀ t, t < N → at' out t = armaSpec obs phis thetas eps t out :=
+  okIff N (armaSpec obs phis thetas eps) out
+
+theorem arimaOK_iff (N : Nat) (c : Int) (phis thetas eps out : List Int) :
+    arimaOK N c phis thetas eps out = true ↔
+      out.length = N ∧ ∀ t, t < N → at' out t = arimaSpec c phis thetas eps t out :=
+  okIff N (arimaSpec c phis thetas eps) out
+
+theorem lags_out_causal (coef : List Int) (t : Nat) (l₁ l₂ : List Int)
+    (h : ∀ k, k < t → at' l₁ k = at' l₂ k) :
+    lags coef t (fun k => at' l₁ (t - 1 - k)) = lags coef t (fun k => at' l₂ (t - 1 - k)) := by
+  apply lags_congr
+  intro k _ hk
+  exact h _ (by omega)
+
+theorem arSpec_causal (obs phis eps : List Int) : Causal (arSpec obs phis eps) := by
+  intro t l₁ l₂ h
+  unfold arSpec
+  rw [lags_out_causal phis t l₁ l₂ h]
+
+theorem maSpec_causal (c : Int) (thetas eps : List Int) : Causal (maSpec c thetas eps) := by
+  intro t l₁ l₂ _
+  rfl
+
+theorem armaSpec_causal (obs phis thetas eps : List Int) : Causal (armaSpec obs phis thetas eps) := by
+  intro t l₁ l₂ h
+  unfold armaSpec
+  rw [lags_out_causal phis t l₁ l₂ h]
+
+theorem arimaSpec_causal (c : Int) (phis thetas eps : List Int) : Causal (arimaSpec c phis thetas eps) := by
+  intro t l₁ l₂ h
+  unfold arimaSpec
+  have : lags phis (t - 1) (fun k => at' l₁ (t - 1 - k) - at' l₁ (t - 2 - k))
+      = lags phis (t - 1) (fun k => at' l₂ (t - 1 - k) - at' l₂ (t - 2 - k)) := by
+    apply lags_congr
+    intro k _ hk
+    show at' l₁ (t - 1 - k) - at' l₁ (t - 2 - k) = at' l₂ (t - 1 - k) - at' l₂ (t - 2 - k)
+    rw [h (t - 1 - k) (by omega), h (t - 2 - k) (by omega)]
+  rw [this]
+
+/-! ### the model steps agree with the recurrences -/
+
+/-- AR needs every coefficient lag to be covered by the observations (`phis.length ≤ obs.length`):
+for `N = 2, obs = [], phis = [2,3], eps = [7]` the code reads `rst[0]` for the lag that reaches
+before the start (`i - j - 1` truncates to 0) and `arOK` is `false`. -/
+theorem arValue_eq (obs phis eps : List Int) (hlen : phis.length ≤ obs.length) (t : Nat) (l : List Int) :
+    arValue obs phis eps t l = arSpec obs phis eps t l := by
+  unfold arValue arSpec
+  by_cases ht : t < obs.length
+  · simp [ht]
+  · simp only [ht, if_false]
+    congr 1
+    apply lagSum_eq_lags
+    · intro j hj
+      have : j < t := by omega
+      simp [this]
+    · intro k _ hk
+      show at' l (t - k - 1) = at' l (t - 1 - k)
+      congr 1
+      omega
+
+theorem maValue_eq (c : Int) (thetas eps : List Int) (t : Nat) (l : List Int) :
+    maValue c thetas eps t l = maSpec c thetas eps t l := by
+  unfold maValue maSpec
+  rw [Int.add_assoc]
+  congr 2
+  apply lagSum_eq_lags
+  · intro j _
+    rfl
+  · intro k _ _
+    show at' eps (t - k - 1) = at' eps (t - 1 - k)
+    congr 1
+    omega
+
+theorem armaValue_eq (obs phis thetas eps : List Int) (t : Nat) (l : List Int) :
+    armaValue obs phis thetas eps t l = armaSpec obs phis thetas eps t l := by
+  unfold armaValue armaSpec
+  by_cases ht : t < obs.length
+  · simp [ht]
+  · simp only [ht, if_false]
+    congr 1
+    · congr 1
+      apply lagSum_eq_lags
+      · intro j _
+        rfl
+      · intro k _ _
+        show at' l (t - k - 1) = at' l (t - 1 - k)
+        congr 1
+        omega
+    · apply lagSum_eq_lags
+      · intro j _
+        rfl
+      · intro k _ _
+        show at' eps (t - k - 1) = at' eps (t - 1 - k)
+        congr 1
+        omega
+
+theorem arimaValue_eq (c : Int) (phis thetas eps : List Int) (t : Nat) (l : List Int) :
+    arimaValue c phis thetas eps t l = arimaSpec c phis thetas eps t l := by
+  unfold arimaValue arimaSpec
+  congr 1
+  · congr 1
+    apply lagSum_eq_lags
+    · intro j _
+      apply decide_eq_decide.mpr
+      omega
+    · intro k _ _
+      show at' l (t - k - 1) - at' l (t - k - 2) = at' l (t - 1 - k) - at' l (t - 2 - k)
+      have e1 : t - k - 1 = t - 1 - k := by omega
+      have e2 : t - k - 2 = t - 2 - k := by omega
+      rw [e1, e2]
+  · apply lagSum_eq_lags
+    · intro j _
+      rfl
+    · intro k _ _
+      show at' eps (t - k - 1) = at' eps (t - 1 - k)
+      congr 1
+      omega
+
+/-! ### 2. the models satisfy their specifications -/
+
+/-- general form: it is enough that the observations cover all the lags -/
+theorem C16_ar_le (N : Nat) (obs phis eps : List Int) (hlen : phis.length ≤ obs.length) :
+    arOK N obs phis eps (ar N obs phis eps) = true := by
+  rw [arOK_iff]
+  exact ⟨build_length _ _,
+    build_sat N _ _ (arSpec_causal obs phis eps) (fun t l _ => arValue_eq obs phis eps hlen t l)⟩
+
+theorem C16_ar (N : Nat) (obs phis eps : List Int) (hlen : obs.length = phis.length)
+    (_hp : 1 ≤ phis.length) : arOK N obs phis eps (ar N obs phis eps) = true :=
+  C16_ar_le N obs phis eps (by omega)
+
+theorem C16_ma (N : Nat) (c : Int) (thetas eps : List Int) :
+    maOK N c thetas eps (ma N c thetas eps) = true := by
+  rw [maOK_iff]
+  exact ⟨build_length _ _,
+    build_sat N _ _ (maSpec_causal c thetas eps) (fun t l _ => maValue_eq c thetas eps t l)⟩
+
+theorem C16_arma (N : Nat) (obs phis thetas eps : List Int) :
+    armaOK N obs phis thetas eps (arma N obs phis thetas eps) = true := by
+  rw [armaOK_iff]
+  exact ⟨build_length _ _,
+    build_sat N _ _ (armaSpec_causal obs phis thetas eps) (fun t l _ => armaValue_eq obs phis thetas eps t l)⟩
+
+theorem C16_arima (N : Nat) (c : Int) (phis thetas eps : List Int) :
+    arimaOK N c phis thetas eps (arima N c phis thetas eps) = true := by
+  rw [arimaOK_iff]
+  exact ⟨build_length _ _,
+    build_sat N _ _ (arimaSpec_causal c phis thetas eps) (fun t l _ => arimaValue_eq c phis thetas eps t l)⟩
+
+/-- the AR corner case: a lag reaching before the start is NOT read as 0 by the code -/
+example : arOK 2 [] [2, 3] [7] (ar 2 [] [2, 3] [7]) = false := by decide
+
+/-! ### 3. uniqueness: the specification determines the sequence -/
+
+theorem C16_ar_spec_unique_aux (N : Nat) (obs phis eps out₁ out₂ : List Int)
+    (h1 : arOK N obs phis eps out₁ = true) (h2 : arOK N obs phis eps out₂ = true) : out₁ = out₂ := by
+  rw [arOK_iff] at h1 h2
+  exact causal_unique N _ (arSpec_causal obs phis eps) _ _ h1.1 h2.1 h1.2 h2.2
+
+theorem C16_ar_unique (N : Nat) (obs phis eps : List Int) (hlen : obs.length = phis.length)
+    (hp : 1 ≤ phis.length) (out : List Int) (h : arOK N obs phis eps out = true) :
+    out = ar N obs phis eps := by
+  have h' := C16_ar N obs phis eps hlen hp
+  rw [arOK_iff] at h h'
+  exact causal_unique N _ (arSpec_causal obs phis eps) _ _ h.1 h'.1 h.2 h'.2
+
+theorem C16_ar_unique_le (N : Nat) (obs phis eps : List Int) (hlen : phis.length ≤ obs.length)
+    (out : List Int) (h : arOK N obs phis eps out = true) : out = ar N obs phis eps :=
+  C16_ar_spec_unique_aux N obs phis eps out _ h (C16_ar_le N obs phis eps hlen)
+
+theorem C16_ma_unique (N : Nat) (c : Int) (thetas eps : List Int) (out : List Int)
+    (h : maOK N c thetas eps out = true) : out = ma N c thetas eps := by
+  have h' := C16_ma N c thetas eps
+  rw [maOK_iff] at h h'
+  exact causal_unique N _ (maSpec_causal c thetas eps) _ _ h.1 h'.1 h.2 h'.2
+
+theorem C16_arma_unique (N : Nat) (obs phis thetas eps : List Int) (out : List Int)
+    (h : armaOK N obs phis thetas eps out = true) : out = arma N obs phis thetas eps := by
+  have h' := C16_arma N obs phis thetas eps
+  rw [armaOK_iff] at h h'
+  exact causal_unique N _ (armaSpec_causal obs phis thetas eps) _ _ h.1 h'.1 h.2 h'.2
+
+theorem C16_arima_unique (N : Nat) (c : Int) (phis thetas eps : List Int) (out : List Int)
+    (h : arimaOK N c phis thetas eps out = true) : out = arima N c phis thetas eps := by
+  have h' := C16_arima N c phis thetas eps
+  rw [arimaOK_iff] at h h'
+  exact causal_unique N _ (arimaSpec_causal c phis thetas eps) _ _ h.1 h'.1 h.2 h'.2
+
+/-- two outputs accepted by the same specification coincide (no hypothesis on the model needed) -/
+theorem C16_ar_spec_unique (N : Nat) (obs phis eps out₁ out₂ : List Int)
+    (h1 : arOK N obs phis eps out₁ = true) (h2 : arOK N obs phis eps out₂ = true) : out₁ = out₂ :=
+  C16_ar_spec_unique_aux N obs phis eps out₁ out₂ h1 h2
+
+/-! ### 4. zero spread: constant noise gives the deterministic recurrence -/
+
+theorem C16_ar_const (N : Nat) (obs phis : List Int) (mu : Int) (hlen : obs.length = phis.length)
+    (hp : 1 ≤ phis.length) :
+    arOK N obs phis (List.replicate N mu) (ar N obs phis (List.replicate N mu)) = true :=
+  C16_ar N obs phis _ hlen hp
+
+theorem C16_ma_const (N : Nat) (c mu : Int) (thetas : List Int) :
+    maOK N c thetas (List.replicate N mu) (ma N c thetas (List.replicate N mu)) = true :=
+  C16_ma N c thetas _
+
+theorem C16_arma_const (N : Nat) (obs phis thetas : List Int) (mu : Int) :
+    armaOK N obs phis thetas (List.replicate N mu) (arma N obs phis thetas (List.replicate N mu)) = true :=
+  C16_arma N obs phis thetas _
+
+theorem C16_arima_const (N : Nat) (c mu : Int) (phis thetas : List Int) :
+    arimaOK N c phis thetas (List.replicate N mu) (arima N c phis thetas (List.replicate N mu)) = true :=
+  C16_arima N c phis thetas _
+
+/-- with constant noise every noise read inside the horizon is `mu` -/
+theorem at'_replicate (N : Nat) (mu : Int) (i : Nat) (h : i < N) : at' (List.replicate N mu) i = mu := by
+  simp [at', List.getD_eq_getElem?_getD, h]
+
+/-! ### 5. random walk -/
+
+theorem zip_self_filter_ne (xs : List Int) : (xs.zip xs).filter (fun p => p.1 != p.2) = [] := by
+  induction xs with
+  | nil => rfl
+  | cons x xs ih => simp [ih]
+
+theorem zip_self_all (xs : List Int) :
+    (xs.zip xs).all (fun p => p.1 == p.2 || p.2 - p.1 == 1 || p.2 - p.1 == -1) = true := by
+  induction xs with
+  | nil => rfl
+  | cons x xs ih => simp [ih]
+
+theorem modify_count (a : List Int) (i : Nat) (d : Int) (hd : d ≠ 0) (hi : i < a.length) :
+    ((a.zip (a.modify i (· + d))).filter (fun p => p.1 != p.2)).length = 1 := by
+  induction a generalizing i with
+  | nil => simp at hi
+  | cons x xs ih =>
+    cases i with
+    | zero =>
+      have : x ≠ x + d := by omega
+      simp [zip_self_filter_ne, this]
+    | succ i =>
+      have := ih i (by simpa using hi)
+      simpa using this
+
+theorem modify_all (a : List Int) (i : Nat) (d : Int) (hd : d = 1 ∨ d = -1) :
+    (a.zip (a.modify i (· + d))).all (fun p => p.1 == p.2 || p.2 - p.1 == 1 || p.2 - p.1 == -1) = true := by
+  induction a generalizing i with
+  | nil => simp
+  | cons x xs ih =>
+    cases i with
+    | zero =>
+      have h1 : x + d - x = d := by omega
+      have h2 := zip_self_all xs
+      rcases hd with hd | hd
+      · subst hd
+        simp only [List.modify_zero_cons, List.zip_cons_cons, List.all_cons, h2, h1]
+        simp
+      · subst hd
+        simp only [List.modify_zero_cons, List.zip_cons_cons, List.all_cons, h2, h1]
+        simp
+    | succ i =>
+      have := ih i
+      simp only [List.modify_succ_cons, List.zip_cons_cons, List.all_cons, this]
+      simp
+
+/-- one step of the walk changes exactly one coordinate, by exactly ±1 -/
+theorem stepOK_walkStep (dim : Nat) (pos : List Int) (r : Nat) (hpos : pos.length = dim)
+    (hr : r < 2 * dim) : stepOK pos (walkStep dim pos r) = true := by
+  have hdim : 0 < dim := by omega
+  have hax : r % dim < pos.length := by rw [hpos]; exact Nat.mod_lt _ hdim
+  unfold stepOK walkStep
+  have hd : (if r ≥ dim then (1 : Int) else -1) = 1 ∨ (if r ≥ dim then (1 : Int) else -1) = -1 := by
+    by_cases h : r ≥ dim <;> simp [h]
+  have hd0 : (if r ≥ dim then (1 : Int) else -1) ≠ 0 := by
+    rcases hd with h | h <;> rw [h] <;> decide
+  rw [modify_count pos (r % dim) _ hd0 hax, modify_all pos (r % dim) _ hd]
+  simp
+
+theorem walkStep_length (dim : Nat) (pos : List Int) (r : Nat) :
+    (walkStep dim pos r).length = pos.length := by
+  simp [walkStep]
+
+theorem pathOK_append (p : List (List Int)) (x d : List Int) (hne : p ≠ [])
+    (hp : pathOK p = true) (hs : stepOK (p.getLastD d) x = true) : pathOK (p ++ [x]) = true := by
+  induction p generalizing d with
+  | nil => exact absurd rfl hne
+  | cons a rest ih =>
+    cases rest with
+    | nil =>
+      simp only [List.getLastD_cons, List.getLastD_nil] at hs
+      simp [pathOK, hs]
+    | cons b rest =>
+      simp only [pathOK, Bool.and_eq_true] at hp
+      have := ih a (by simp) hp.2 (by simp only [List.getLastD_cons] at hs ⊢; exact hs)
+      simp only [List.cons_append, pathOK, Bool.and_eq_true]
+      exact ⟨hp.1, by simpa using this⟩
+
+/-- invariant of the walk loop -/
+theorem walk_fold (dim : Nat) (rs : List Nat) (hr : ∀ r ∈ rs, r < 2 * dim) (p : List (List Int))
+    (hne : p ≠ []) (hp : pathOK p = true)
+    (hlast : (p.getLastD (List.replicate dim 0)).length = dim) :
+    let q := rs.foldl
+      (fun path r => path ++ [walkStep dim (path.getLastD (List.replicate dim 0)) r]) p
+    q.length = p.length + rs.length ∧ q.head? = p.head? ∧ pathOK q = true := by
+  induction rs generalizing p with
+  | nil => simp [hp]
+  | cons r rs ih =>
+    simp only [List.foldl_cons]
+    have hr0 : r < 2 * dim := hr r (by simp)
+    have hstep := stepOK_walkStep dim _ r hlast hr0
+    have h1 := pathOK_append p _ _ hne hp hstep
+    have h2 : ((p ++ [walkStep dim (p.getLastD (List.replicate dim 0)) r]).getLastD
+        (List.replicate dim 0)).length = dim := by
+      rw [List.getLastD_concat, walkStep_length, hlast]
+    have := ih (fun r' h' => hr r' (by simp [h']))
+      (p ++ [walkStep dim (p.getLastD (List.replicate dim 0)) r]) (by simp) h1 h2
+    refine ⟨?_, ?_, this.2.2⟩
+    · rw [this.1]; simp; omega
+    · rw [this.2.1]
+      cases p with
+      | nil => exact absurd rfl hne
+      | cons a rest => rfl
+
+theorem C16_walk (dim : Nat) (_hd : 1 ≤ dim) (rs : List Nat) (hr : ∀ r ∈ rs, r < 2 * dim) :
+    walkOK rs.length dim (walk dim rs) = true := by
+  have := walk_fold dim rs hr [List.replicate dim 0] (by simp) rfl (by simp)
+  unfold walkOK walk
+  simp only [this.1, this.2.1, this.2.2]
+  simp
+  omega
+
+/-! #### the `randint(0, 2*dim)` decode is a bijection onto (axis, direction) -/
+
+theorem decode_mod (dim r : Nat) (hr : r < 2 * dim) : r % dim = if r ≥ dim then r - dim else r := by
+  by_cases h : r ≥ dim
+  · rw [if_pos h, Nat.mod_eq_sub_mod h, Nat.mod_eq_of_lt (by omega)]
+  · rw [if_neg h, Nat.mod_eq_of_lt (by omega)]
+
+/-- the decoded axis is in range -/
+theorem C16_decode_range (dim r : Nat) (hr : r < 2 * dim) : r % dim < dim :=
+  Nat.mod_lt _ (by omega)
+
+/-- `(axis, up) ↦ axis + (if up then dim else 0)` is a left inverse of the decode -/
+theorem C16_decode_left_inv (dim r : Nat) (hr : r < 2 * dim) :
+    r % dim + (if decide (r ≥ dim) then dim else 0) = r := by
+  rw [decode_mod dim r hr]
+  by_cases h : r ≥ dim
+  · simp [h]
+  · simp [h]
+
+/-- ... and a right inverse, landing in `[0, 2*dim)` -/
+theorem C16_decode_right_inv (dim axis : Nat) (up : Bool) (h : axis < dim) :
+    axis + (if up then dim else 0) < 2 * dim ∧
+      (axis + (if up then dim else 0)) % dim = axis ∧
+      decide (axis + (if up then dim else 0) ≥ dim) = up := by
+  cases up with
+  | false =>
+    refine ⟨by simp; omega, by simp [Nat.mod_eq_of_lt h], ?_⟩
+    simp; omega
+  | true =>
+    refine ⟨by simp; omega, ?_, ?_⟩
+    · simp [Nat.mod_eq_of_lt h]
+    · simp
+
+theorem C16_decode_injective (dim r s : Nat) (hr : r < 2 * dim) (hs : s < 2 * dim)
+    (h : (r % dim, decide (r ≥ dim)) = (s % dim, decide (s ≥ dim))) : r = s := by
+  have h1 : r % dim = s % dim := congrArg Prod.fst h
+  have h2 : decide (r ≥ dim) = decide (s ≥ dim) := congrArg Prod.snd h
+  rw [← C16_decode_left_inv dim r hr, ← C16_decode_left_inv dim s hs, h1, h2]
+
+theorem C16_decode_surjective (dim axis : Nat) (up : Bool) (h : axis < dim) :
+    ∃ r, r < 2 * dim ∧ (r % dim, decide (r ≥ dim)) = (axis, up) := by
+  have := C16_decode_right_inv dim axis up h
+  exact ⟨axis + (if up then dim else 0), this.1, by rw [this.2.1, this.2.2]⟩
+
+end FF
